@@ -15,6 +15,7 @@ Line protocol of the C14 model driver (harness/c14.py).
   emit <0|1> <text> <k> <strOf…> <20 fields>  -> same, through `emit serialize`
   hemit <catch> <0|1> <text> <k> <strOf…> <20 fields>  -> wrote <tok> | raised <Kind> | reported <Kind>   handlerEmit
   col <n|0|1> <0|1> <0|1>              -> 0|1                 handlerColorize colorize serialize sinkWants
+  readlines <tok>                      -> ok <n> <tok>…       readLines (what a line-by-line reader yields)
 
 value tokens (prefix order): n  T  F  i<int>  d<floattok>  s<tok>  l<count> v…  m<count> (key v)…  o<id>
 key tokens: k<tok> (str)  Ki<int>  Kd<floattok>  KT  KF  Kn  Ko<id> (a key json has no rule for)
@@ -163,6 +164,10 @@ def step (line : String) : String :=
       match loads s with
       | some v => "ok " ++ encTok (dumps false v)
       | none => "none"
+    | none => "bad-op"
+  | ["readlines", tok] =>
+    match decTok tok with
+    | some s => (readLines s).foldl (fun acc l => acc ++ " " ++ encTok l) ("ok " ++ toString (readLines s).length)
     | none => "bad-op"
   | ["col", c, s, w] =>
     let c : Option Bool := if c = "n" then none else some (c = "1")
